@@ -191,21 +191,25 @@ class SimFS:
 
     # ------------------------------------------------------------------ os.*
     def isfile(self, path):
+        empty = str(path) == ""
         path = self.norm(path)
         post = self._point("isfile", path)
-        res = self.follow(path) in self.files
+        res = not empty and self.follow(path) in self.files
         self._after(post, "isfile")
         return res
 
     def exists(self, path):
+        if str(path) == "":
+            return False
         path = self.follow(path)
         return path in self.files or path in self.dirs
 
     def access(self, path, mode):
+        empty = str(path) == ""  # the empty path names nothing (it is NOT the working directory)
         path = self.norm(path)
         post = self._point("access", path)
         path = self.follow(path)
-        if path not in self.files and path not in self.dirs:
+        if empty or (path not in self.files and path not in self.dirs):
             res = False
         elif mode & 2 and path in self.readonly:
             res = False
@@ -602,7 +606,7 @@ class _DynPath:
 
     @staticmethod
     def isdir(path):
-        return FsHolder.fs.norm(path) in FsHolder.fs.dirs
+        return str(path) != "" and FsHolder.fs.norm(path) in FsHolder.fs.dirs
 
     @staticmethod
     def isabs(path):
